@@ -135,10 +135,15 @@ fn g_entity_boundary(_rng: &mut Rng, _n: usize) -> Vec<Case> {
         "</a>", "<c/></a>", "<c></c></a>", "x</a>", "<!--k--></a>", "<c/></a><a>", "</a><a>", "<c>", "<c><d/>",
         "<c", "<c d=\"e\"", "<c d=\"e\" ", "<c/", "</c>", "<c></d>", "</a></a>", "<c/></a><b/>", "<a>", "<c></c>",
         "<c/>t</a>", "<?p?></a>", "<![CDATA[x]]></a>", "&n;</a>", "<c>&n;", "<c/>&m;", "</", "<", "<c></c",
+        // constructs cut off by the end of the replacement text, whose terminator stands after the reference
+        "<c d=\"e", "<c d=\"", "<c d=", "<c d", "<c d=\"e\" f=\"", "<!--k", "<!--k-", "<?p x", "<?p", "<![CDATA[x", "<![CDATA[x]",
+        "&#x4", "&am", "<c d=\"&am", "<c d=\"&lt", "</c", "<c d=\"e\"/", "<!", "<![CDA",
     ];
     let docs = [
         "<a>&e;</a>", "<a>&e;", "<a>&e;<b/>", "<a>&e;<b/></a>", "<a>x&e;y</a>", "<a><q>&e;</q></a>", "<a><q>&e;</a>",
         "<a>&e;&e;</a>", "<a>&e;</a><a/>", "<a>&e;t<b/>", "<a><a>&e;</a>", "<a>&w;</a>", "<a>&w;<b/>",
+        "<a>&e;\"/></a>", "<a>&e;\" x=\"y\"/></a>", "<a>&e;--></a>", "<a>&e;?></a>", "<a>&e;]]></a>", "<a>&e;;</a>", "<a>&e;></a>",
+        "<a>&e;</a><!-- \" -->",
     ];
     let mut out = Vec::new();
     for v in values {
@@ -182,6 +187,38 @@ fn g_exotic(rng: &mut Rng, n: usize) -> Vec<Case> {
             }
             out.push(case(t.contains("DOCTYPE"), t.replace('@', &c.to_string())));
         }
+    }
+    out
+}
+
+/// Regions of the DOCTYPE that the tokenizer skips without looking at the characters (bodies of
+/// ELEMENT / ATTLIST / NOTATION declarations, system and public literals, values of entities that
+/// are never referenced, parameter entities): any byte sequence may stand there, in front of the
+/// positions that `text_pos_at` and the error reports must still get right (C14), at every
+/// alignment of the document in memory words.
+fn g_dtdjunk(rng: &mut Rng, n: usize) -> Vec<Case> {
+    let alpha = [
+        "\n", "\u{b}", "\u{1}", "\u{0}", "\u{c}", "\r", "\u{7f}", "\u{e9}", "\u{20ac}", "\u{1F600}", " ", "x", "\n\u{b}",
+        "\n\u{1}", "\u{85}", "\u{2028}", "\t", "\n\n", "\u{b}\n", "\u{fffe}", "\r\n", "\n\u{b}\u{b}",
+    ];
+    let templates = [
+        "<!DOCTYPE a [<!ELEMENT a @>]>", "<!DOCTYPE a [<!ATTLIST a b @>]>", "<!DOCTYPE a [<!NOTATION n @>]>",
+        "<!DOCTYPE a SYSTEM '@'>", "<!DOCTYPE a PUBLIC '@' \"@\">", "<!DOCTYPE a [<!ENTITY unused '@'>]>",
+        "<!DOCTYPE a [<!ENTITY unused SYSTEM \"@\">]>", "<!DOCTYPE a [<!ENTITY % p '@'>]>",
+        "<!DOCTYPE a [<!ENTITY u PUBLIC '@' '@' NDATA n>]>",
+    ];
+    let tails = ["<a>x\ny</a>", "<a>\n</b>", "\n<a b='1' b='2'/>", "<a>&u;\n</a>", "\n\n<a>\u{e9}\n<b/>\u{1}</a>", "<a/>"];
+    let mut out = Vec::new();
+    for k in 0..n {
+        let t = templates[k % templates.len()];
+        let len = 1 + rng.below(10);
+        let mut junk = String::new();
+        for _ in 0..len {
+            junk.push_str(alpha[rng.below(alpha.len())]);
+        }
+        let pad = " ".repeat((k / templates.len()) % 8);
+        let tail = tails[rng.below(tails.len())];
+        out.push(case(true, format!("{}{}{}", pad, t.replace('@', &junk), tail)));
     }
     out
 }
@@ -246,6 +283,7 @@ pub fn gen(name: &str, rng: &mut Rng, n: usize, _args: &[String]) -> Vec<Case> {
         "entities" => g_entities(rng, n),
         "entity-boundary" => g_entity_boundary(rng, n),
         "exotic" => g_exotic(rng, n),
+        "dtdjunk" => g_dtdjunk(rng, n),
         "pieces2-text" => g_pieces2(rng, n, false),
         "pieces2-attr" => g_pieces2(rng, n, true),
         "ns" => g_ns(rng, n),
@@ -703,6 +741,19 @@ fn cmd_illform(seed: u64) {
                         edits.push(("bad element name".into(), ins(at, "<1a/>")));
                         edits.push(("bad name char".into(), ins(at, "<a\u{d7}b/>")));
                         edits.push(("two colons in a name".into(), ins(at, "<a:b:c/>")));
+                        // NameChar that is not NameStartChar at the start of a name, of a prefix, of a local part
+                        for (k, c) in ["\u{b7}", "\u{300}", "\u{36f}", "\u{203f}", "\u{2040}", "-", ".", "7"].iter().enumerate() {
+                            edits.push((format!("name starting with a non-NameStartChar #{}", k), ins(at, &format!("<{}a/>", c))));
+                            edits.push((format!("local part starting with a non-NameStartChar #{}", k), ins(at, &format!("<p9:{}a xmlns:p9='u'/>", c))));
+                            edits.push((format!("prefix starting with a non-NameStartChar #{}", k), ins(at, &format!("<{}p:a xmlns:{}p='u'/>", c, c))));
+                            edits.push((format!("attribute local part starting with a non-NameStartChar #{}", k), ins(at, &format!("<e xmlns:p9='u' p9:{}a='v'/>", c))));
+                            edits.push((format!("attribute name starting with a non-NameStartChar #{}", k), ins(at, &format!("<e {}a='v'/>", c))));
+                            edits.push((format!("declared prefix starting with a non-NameStartChar #{}", k), ins(at, &format!("<e xmlns:{}a='v'/>", c))));
+                            edits.push((format!("end tag local part starting with a non-NameStartChar #{}", k), ins(at, &format!("<p9:a xmlns:p9='u'></p9:{}a>", c))));
+                            edits.push((format!("PI target starting with a non-NameStartChar #{}", k), ins(at, &format!("<?{}a?>", c))));
+                        }
+                        edits.push(("empty local part".into(), ins(at, "<p9: xmlns:p9='u'/>")));
+                        edits.push(("empty attribute local part".into(), ins(at, "<e xmlns:p9='u' p9:='v'/>")));
                         edits.push(("undeclared element prefix".into(), ins(at, "<undeclared9:a/>")));
                         edits.push(("xmlns as element prefix".into(), ins(at, "<xmlns:a/>")));
                         edits.push(("PI without target".into(), ins(at, "<? x?>")));
@@ -1151,6 +1202,12 @@ fn cmd_scale(args: &[String]) {
                     }
                     "toprefs" => (format!("<!DOCTYPE r [<!ENTITY e 'x'>]><r>{}</r>", "&e;".repeat(n)), true),
                     "nonascii-lines" => (format!("<r>{}</r>", "\u{e9}\u{1F600}\n".repeat(n)), false),
+                    // attribute names longer than the 16-bit length field, with a multi-byte character
+                    // across byte 65535 of the name; '=' surrounded by more white space than the 8-bit field
+                    "longname-2" => (format!("<r {}='v' b='w'/>", "\u{e9}".repeat(n)), false),
+                    "longname-3" => (format!("<r a{}='v' b='w'/>", "\u{4e2d}".repeat(n)), false),
+                    "longname-4" => (format!("<r {}='v' b='w'/>", "\u{10400}".repeat(n)), false),
+                    "longeq" => (format!("<r \u{e9}a{}={}'v' b='w'/>", " ".repeat(n), " ".repeat(n)), false),
                     _ => (String::new(), false),
                 };
                 let t0 = std::time::Instant::now();
@@ -1177,6 +1234,11 @@ fn cmd_scale(args: &[String]) {
                         }
                         acc += last.parent_element().map(|_| 1).unwrap_or(0);
                         acc += doc.root_element().attributes().count() + doc.root_element().namespaces().count();
+                        #[cfg(feature = "rox-positions")]
+                        for a in doc.root_element().attributes().chain(last.attributes()) {
+                            acc += a.range().end + a.range_qname().end + a.range_value().start;
+                            acc += a.name().len() + a.value().len();
+                        }
                         acc += doc.root_element().lookup_prefix("u1").map(|_| 1).unwrap_or(0);
                         // Debug / Display into a discarding sink (the Debug text is quadratic in depth)
                         struct Sink(usize, usize);
